@@ -282,3 +282,51 @@ V("C06-t1", "C06", (SW, "    if value < 128:\n        return RepresentationCode.
   "silent", "inclusive bounds")
 V("C06-t2", "C06", (SW, "        obname = origin_reference + copy_number + name\n", "        obname = b''.join((origin_reference, copy_number, name)) if False else origin_reference + copy_number + name\n"),
   "silent", "")
+
+# ---------------------------------------------------------------------------------------------- C04
+EITEM = "logical_record/core/eflr/eflr_item.py"
+FH = "logical_record/eflr_types/file_header.py"
+V("C04-b1", "C04", (ATT, "        if count is not None and count != 1:", "        if count and count != 1:"), ["R04.1", "R04.2"],
+  "empty list: value announced with default count 1, nothing written (original defect F-EMPTYLIST)")
+V("C04-b2", "C04", (ATT, "        if isinstance(value, (list, tuple)):\n            raise TypeError(f\"{self} is single-valued; got {type(value)}: {value}\")\n", ""),
+  "R04.2", "lists accepted by single-valued attributes (original defect F-SCALARLIST)")
+V("C04-b3", "C04", (ATT, "            return len(self.flatten_list(self._value))", "            return sum(len(v) if isinstance(v, (list, tuple)) else 1 for v in self._value)"),
+  "R04.2", "count of nested values counts one level only (agent mutant C04-m1)")
+V("C04-b4", "C04", (ATT, "        if self._units:\n            bts += write_struct_ident(self._units)\n            characteristics += '1'",
+                    "        if self._units:\n            bts += write_struct_ident(self._units)\n            characteristics += '0'"),
+  "R04.1", "units written but not flagged")
+V("C04-b5", "C04", (ATT, "        # representation code\n        if self.representation_code:\n            bts += RepresentationCode.USHORT.convert(self.representation_code.value)\n            characteristics += '1'",
+                    "        # representation code\n        if self.representation_code:\n            characteristics += '1'"),
+  "R04.1", "code flagged but not written")
+V("C04-b6", "C04", (ATT, "        # units\n        if self._units:", "        # units\n        if self._units and not self._multivalued:"),
+  "silent", "units dropped for multivalued attributes: grammar stays consistent (C05 territory)")
+V("C04-b7", "C04", (EITEM, "                _bytes += b'\\x00'\n", "                pass\n"), "R04.1",
+  "unset attributes skipped instead of marked absent")
+V("C04-b8", "C04", (EITEM, "        return b'p' + self.obname + self._make_attrs_bytes()", "        return b'\\x60' + self.obname + self._make_attrs_bytes()"),
+  "R04.1", "wrong object descriptor")
+V("C04-b9", "C04", (ESET, "            _bytes = b'\\xf8' + self._set_type_struct + write_struct_ident(self.set_name)",
+                    "            _bytes = b'\\xf0' + self._set_type_struct + write_struct_ident(self.set_name)"),
+  "R04.1", "named set with the 'type only' descriptor")
+V("C04-b10", "C04", (ESET, "            child0 = self._eflr_item_list[0]", "            child0 = self._eflr_item_list[-1]"), "R04.3",
+  "template from the last item")
+V("C04-b11", "C04", (ESET, "        for ei in eflr_items:\n            bts += ei.make_item_body_bytes()", "        for ei in reversed(eflr_items):\n            bts += ei.make_item_body_bytes()"),
+  ["R04.1"], "objects in reverse order")
+V("C04-b12", "C04", (FH, "        bts += pack_ushort(10)\n", "        bts += pack_ushort(12)\n"), "R04.1", "FILE-HEADER sequence number length byte 12 for 10 characters")
+V("C04-b13", "C04", (FH, "        bts += pack_ushort(int('00110100', 2))\n        bts += write_struct_ident('SEQUENCE-NUMBER')",
+                     "        bts += pack_ushort(int('00110000', 2))\n        bts += write_struct_ident('SEQUENCE-NUMBER')"),
+  "R04.1", "template descriptor without the code bit although the code byte follows")
+V("C04-b14", "C04", ("logical_record/eflr_types/zone.py", "        self.maximum = DTimeAttribute('maximum', allow_float=True)", "        self.maximum = DTimeAttribute('minimum', allow_float=True)"),
+  "R04.3", "duplicate label in the ZONE template")
+V("C04-b15", "C04", ("logical_record/eflr_types/axis.py", "        self.spacing = NumericAttribute('spacing')\n\n        super().__init__(name, parent=parent, **kwargs)",
+                     "        super().__init__(name, parent=parent, **kwargs)\n        self.spacing = NumericAttribute('spacing')"),
+  "R04.3", "attribute declared after registration")
+V("C04-b16", "C04", (ESET, "        if not eflr_items:\n            return b''\n", ""), "R04.5", "empty sets produce a record")
+V("C04-b17", "C04", (FH, "        bts += get_ascii_bytes(str(self.sequence_number), 10, justify_left=False)", "        bts += str(self.sequence_number).rjust(10).encode('ascii')"),
+  "silent", "rjust instead of the raising fixed-width helper: harmless while the constructor bounds the number "
+            "(agent mutant C04-m3, site 2 alone)")
+V("C04-b18", "C04", [(FH, "        bts += get_ascii_bytes(str(self.sequence_number), 10, justify_left=False)", "        bts += str(self.sequence_number).rjust(10).encode('ascii')"),
+                     (FH, "    max_sequence_number = int(1e10 - 1)     #: max value for sequence number; largest 10-digit integer", "    max_sequence_number = 10 ** 10")],
+  "R04.1", "both sites of agent mutant C04-m3: sequence number 10^10 accepted and written in 11 characters")
+V("C04-t1", "C04", (ATT, "        if count is not None and count != 1:", "        if not (count is None or count == 1):"), "silent", "")
+V("C04-t2", "C04", (EITEM, "            if attr.value is None:\n                _bytes += b'\\x00'\n            else:\n                _bytes += attr.get_as_bytes()",
+                    "            _bytes += b'\\x00' if attr.value is None else attr.get_as_bytes()"), "silent", "")
